@@ -47,6 +47,8 @@ def main():
     patch = os.path.join(seed, "patch.diff")
     res = {"seed": os.path.basename(seed), "property": prop}
     env = dict(os.environ, CARGO_TARGET_DIR=TARGET, CARGO_NET_OFFLINE="true")
+    if os.environ.get("SEED_SKIP_VALIDATE"):
+        return run_checks(res, patch, checks)
     if not os.path.isdir(WT):
         sh(["git", "-C", "/repo", "worktree", "prune"])
         rc, out = sh(["git", "-C", "/repo", "worktree", "add", "--detach", WT, "HEAD"])
@@ -81,6 +83,10 @@ def main():
     res["suite_with_patch"] = {"rc": rc, "passed": passed, "failed": failed}
     res["valid"] = bool(res["demo_without_patch_passes"] and res["demo_with_patch_fails"] and rc == 0 and failed == 0)
     sh("git reset -q --hard && git clean -fdq", cwd=WT)
+    return run_checks(res, patch, checks)
+
+
+def run_checks(res, patch, checks):
     # run the checks against /repo with the patch applied
     rc, out = sh(["git", "-C", "/repo", "apply", "--3way", patch])
     if rc != 0:
